@@ -10,6 +10,7 @@ mod c08;
 mod c09;
 mod c10;
 mod c11;
+mod c13d;
 mod c14;
 mod c15;
 mod client_rig;
@@ -47,6 +48,7 @@ fn dispatch(id: &str, tier: Option<&str>) {
         "C09" => c09::main(tier),
         "C10" => c10::main(tier),
         "C11" => c11::main(tier),
+        "C13-driver" => c13d::main(tier),
         "C14" => c14::main(tier),
         "C14-small" => c14::main_small(tier),
         "C15" => c15::main(tier),
